@@ -381,6 +381,13 @@ def run(tier, seed):
     run.sample(traces[0])
     run.sample(traces[-1])
     run.extra["tool_runs"] = len(traces)
+    if not rejected:
+        victim = next(t for t in traces if any(len(u["events"]) > 2 for u in t["utts"]))
+
+        def corrupt(t):
+            u = next(u for u in t["utts"] if len(u["events"]) > 2)
+            u["events"][1], u["events"][2] = u["events"][2], u["events"][1]
+        common.assert_binding_live(run, "TracePipeline", "TracePipeline.cfg", victim, corrupt, "two stage events of one utterance swapped")
     run.extra["rule"] = "pre in {none, [preemph], [dither, preemph]} x post in {none, [deltas], [stack, deltas]} x {inline JSON, JSON file, YAML file} x channel / raw-column / worker variants; 6 utterances per run incl. too short, stereo, wrong rate; wav / npy / pt / sph containers"
     return run.finish()
 
